@@ -52,6 +52,39 @@ std::string mv_show(const MV& x, size_t max) {
   return o;
 }
 
+static bool diff_rec(const MV& x, const MV& y, std::string& path, std::string& out) {
+  if (x.k == y.k && x.k == MV::Arr && x.a.size() == y.a.size()) {
+    for (size_t i = 0; i < x.a.size(); i++) {
+      size_t n = path.size();
+      path += "/" + std::to_string(i);
+      if (diff_rec(x.a[i], y.a[i], path, out)) return true;
+      path.resize(n);
+    }
+    return false;
+  }
+  if (x.k == y.k && x.k == MV::Obj && x.o.size() == y.o.size()) {
+    for (size_t i = 0; i < x.o.size(); i++) {
+      size_t n = path.size();
+      path += "/#" + std::to_string(i);
+      if (x.o[i].first != y.o[i].first) {
+        out = path + " key: " + mv_show(MV::str(x.o[i].first), 200) + " vs " + mv_show(MV::str(y.o[i].first), 200);
+        return true;
+      }
+      if (diff_rec(x.o[i].second, y.o[i].second, path, out)) return true;
+      path.resize(n);
+    }
+    return false;
+  }
+  if (eq_ordered(x, y)) return false;
+  out = (path.empty() ? std::string("(root)") : path) + ": " + mv_show(x, 200) + " vs " + mv_show(y, 200);
+  return true;
+}
+std::string mv_diff(const MV& x, const MV& y) {
+  std::string path, out;
+  diff_rec(x, y, path, out);
+  return out;
+}
+
 namespace refjson {
 
 const char* fault_name(Fault f) {
